@@ -721,6 +721,190 @@ async fn churn_case(rep: &mut Report, rng: &mut Rng, tr: Transport, kind: &'stat
   let _ = tokio::time::timeout(Duration::from_secs(12), ctx.term()).await;
 }
 
+/// (strays) a polling consumer: a bound PULL with RCVTIMEO 0 / 2 / 50 ms read in a tight loop, a healthy PUSH peer
+/// carrying sequenced traffic, many tasks calling get_option() (the socket's command loop is kept busy), and a series
+/// of stray clients that are not ZeroMQ at all (an HTTP request, a TLS hello, one byte, nothing) connecting to its
+/// port. Each of them may only lose its own connection.
+async fn strays_case(rep: &mut Report, rng: &mut Rng, tr: Transport, rcvtimeo: i32, api_tasks: usize) {
+  let ctx = util::new_ctx();
+  let peer_ctx = util::new_ctx();
+  let pull = ctx.socket(SocketType::Pull).unwrap();
+  util::set_i32(&pull, opt::RCVTIMEO, rcvtimeo).await;
+  let push = peer_ctx.socket(SocketType::Push).unwrap();
+  util::set_i32(&push, opt::SNDTIMEO, 3000).await;
+  util::set_i32(&push, opt::RECONNECT_IVL, 60_000).await;
+  let push_mon = push.monitor(1024).await.unwrap();
+  let ep = match util::bind_fresh(&pull, tr).await {
+    Ok(e) => e,
+    Err(e) => {
+      rep.inconclusive(format!("bind {e}"));
+      return;
+    }
+  };
+  push.connect(&ep).await.unwrap();
+  tokio::time::sleep(Duration::from_millis(300)).await;
+  let run = (rng.next() & 0x7FFF_FFFF) as u32;
+  let stop = std::sync::Arc::new(std::sync::atomic::AtomicBool::new(false));
+  let push2 = push.clone();
+  let stop_s = stop.clone();
+  let sender = tokio::spawn(async move {
+    let mut sent = vec![];
+    let mut seq = 0u32;
+    while !stop_s.load(std::sync::atomic::Ordering::SeqCst) {
+      let lens = vec![HDR + (seq as usize * 13) % 300];
+      let fr = oracles::build_message(run, 1, seq, u32::MAX, &lens);
+      let r = push2.send(util::msg(fr[0].clone(), false)).await;
+      sent.push(SentMsg { sender: 1, seq, dest: u32::MAX, frame_lens: lens, status: if r.is_ok() { SendStatus::Accepted } else { SendStatus::Maybe } });
+      if r.is_err() {
+        break;
+      }
+      seq += 1;
+      tokio::time::sleep(Duration::from_millis(3)).await;
+    }
+    sent
+  });
+  let pull2 = pull.clone();
+  let stop_r = stop.clone();
+  let reader = tokio::spawn(async move {
+    let mut got: Vec<Vec<Vec<u8>>> = vec![];
+    let mut quiet_since: Option<Instant> = None;
+    let mut hard_errors: Vec<String> = vec![];
+    loop {
+      match pull2.recv_multipart().await {
+        Ok(m) => {
+          quiet_since = None;
+          got.push(m.into_iter().map(|f| f.data().unwrap_or(&[]).to_vec()).collect());
+        }
+        Err(e) => {
+          let k = util::err_kind(&e);
+          if k != "Timeout" && k != "ResourceLimitReached" && hard_errors.len() < 4 {
+            hard_errors.push(k);
+          }
+          if stop_r.load(std::sync::atomic::Ordering::SeqCst) {
+            let q = *quiet_since.get_or_insert_with(Instant::now);
+            if q.elapsed() > Duration::from_millis(1200) {
+              break;
+            }
+          }
+          tokio::time::sleep(Duration::from_micros(300)).await;
+        }
+      }
+    }
+    (got, hard_errors)
+  });
+  let mut apis = vec![];
+  for _ in 0..api_tasks {
+    let p = pull.clone();
+    let st = stop.clone();
+    apis.push(tokio::spawn(async move {
+      let mut failures: Vec<String> = vec![];
+      while !st.load(std::sync::atomic::Ordering::SeqCst) {
+        if let Err(e) = p.get_option(opt::RCVHWM).await {
+          if failures.len() < 3 {
+            failures.push(format!("{:?}", e));
+          }
+          if failures.len() >= 3 {
+            break;
+          }
+        }
+        tokio::task::yield_now().await;
+      }
+      failures
+    }));
+  }
+  // the strays
+  let junk: [&[u8]; 4] = [b"GET / HTTP/1.1\r\nHost: localhost\r\n\r\n", b"\x16\x03\x01\x02\x00\x01\x00\x01\xfc\x03\x03", b"\x00", b""];
+  let mut strays_connected = 0;
+  for k in 0..16 {
+    match RawStream::connect(&ep).await {
+      Ok(mut r) => {
+        strays_connected += 1;
+        let _ = r.write_all(junk[k % 4]).await;
+        if k % 3 == 0 {
+          r.set_linger0();
+        }
+        if k % 2 == 0 {
+          drop(r);
+        } else {
+          let _ = r.read_for(Duration::from_millis(30), 0).await;
+        }
+      }
+      Err(_) => {}
+    }
+    tokio::time::sleep(Duration::from_millis(rng.range(0, 40) as u64)).await;
+  }
+  tokio::time::sleep(Duration::from_millis(300)).await;
+  stop.store(true, std::sync::atomic::Ordering::SeqCst);
+  let mut api_failures: Vec<String> = vec![];
+  for a in apis {
+    if let Ok(Ok(f)) = tokio::time::timeout(Duration::from_secs(10), a).await {
+      api_failures.extend(f);
+    }
+  }
+  let sent = tokio::time::timeout(Duration::from_secs(10), sender).await.ok().and_then(|x| x.ok()).unwrap_or_default();
+  let (got, reader_errs) = tokio::time::timeout(Duration::from_secs(20), reader).await.ok().and_then(|x| x.ok()).unwrap_or_default();
+  let cfg = format!("bound PULL (RCVTIMEO {} ms, polled) over {} with a healthy PUSH, {} tasks calling get_option(), {} of 16 stray non-ZeroMQ clients got a connection", rcvtimeo, tr.name(), api_tasks, strays_connected);
+  rep.case(&("strays", tr, rcvtimeo, api_tasks), true);
+  rep.count("strays_connected", strays_connected);
+  // a socket that was shut down stays dead: three probes in a row. (A single get_option() among ~10^5 concurrent ones
+  // fails with "Reply channel error" even on a quiet socket - see DESIGN.md, outside the given properties - so the
+  // workers' transient failures are counted, not judged.)
+  let mut probe = tokio::time::timeout(Duration::from_secs(3), pull.get_option(opt::RCVHWM)).await;
+  for _ in 0..2 {
+    if matches!(probe, Ok(Ok(_))) {
+      break;
+    }
+    tokio::time::sleep(Duration::from_millis(50)).await;
+    probe = tokio::time::timeout(Duration::from_secs(3), pull.get_option(opt::RCVHWM)).await;
+  }
+  rep.count("strays_transient_api_failures", api_failures.len() as u64);
+  let dead = api_failures.iter().any(|f| f.contains("Mailbox send error") || f.contains("closed"));
+  if dead || !matches!(probe, Ok(Ok(_))) || strays_connected < 16 {
+    rep.violation(
+      "socket_shut_down_by_stray_client".to_string(),
+      format!("{}: get_option() failures {:?}; a call afterwards: {:?}", cfg, &api_failures[..api_failures.len().min(3)], probe.map(|r| r.map(|_| ()).map_err(|e| e.to_string())).map_err(|_| "no answer within 3 s")),
+      json!({"config": cfg, "api_failures": api_failures, "reader_errors": reader_errs}),
+    );
+  }
+  let mut dropped = false;
+  while let Ok(Ok(ev)) = tokio::time::timeout(Duration::from_millis(20), push_mon.recv()).await {
+    if matches!(ev, SocketEvent::Disconnected { .. }) {
+      dropped = true;
+    }
+  }
+  let f = oracles::check_receiver(run, &sent, &got, None, true);
+  if dropped || !f.ok() {
+    rep.violation(
+      "healthy_connection_hit_by_stray_client".to_string(),
+      format!("{}: healthy PUSH saw Disconnected: {}; stream: received {} of {} accepted, findings {}", cfg, dropped, got.len(), sent.iter().filter(|x| x.status == SendStatus::Accepted).count(), f.kinds().join("+")),
+      json!({"config": cfg, "findings": f.to_json(), "reader_errors": reader_errs}),
+    );
+  }
+  let late_ctx = util::new_ctx();
+  let late = late_ctx.socket(SocketType::Push).unwrap();
+  util::set_i32(&late, opt::SNDTIMEO, 3000).await;
+  let _ = late.connect(&ep).await;
+  let _ = late.send(util::msg(b"late-peer".to_vec(), false)).await;
+  let mut served = false;
+  let t0 = Instant::now();
+  while t0.elapsed() < util::scaled(Duration::from_secs(4)) {
+    match pull.recv().await {
+      Ok(m) if m.data() == Some(b"late-peer") => {
+        served = true;
+        break;
+      }
+      Ok(_) => {}
+      Err(_) => tokio::time::sleep(Duration::from_millis(2)).await,
+    }
+  }
+  if !served {
+    rep.violation("listener_stopped_by_stray_client".to_string(), format!("{}: a new PUSH connecting afterwards was not served within 4 s", cfg), json!({"config": cfg}));
+  }
+  let _ = tokio::time::timeout(Duration::from_secs(12), late_ctx.term()).await;
+  let _ = tokio::time::timeout(Duration::from_secs(12), peer_ctx.term()).await;
+  let _ = tokio::time::timeout(Duration::from_secs(12), ctx.term()).await;
+}
+
 fn main() {
   let args = Args::parse();
   util::install_panic_watch();
@@ -729,6 +913,22 @@ fn main() {
   let rt = util::runtime(2);
   match args.only.as_deref() {
     Some("arith") => arith_layer(&mut rep),
+    Some("strays") => {
+      let rt4 = util::runtime(4);
+      let mut i = 0;
+      for tr in [Transport::Tcp, Transport::Ipc] {
+        for rcvtimeo in [0, 2, 50] {
+          for api_tasks in [32usize, 4] {
+            i += 1;
+            if !args.mine(i) || (!args.thorough() && tr == Transport::Ipc && rcvtimeo != 0) {
+              continue;
+            }
+            util::guarded(&rt4, strays_case(&mut rep, &mut rng, tr, rcvtimeo, api_tasks));
+          }
+        }
+      }
+      util::cleanup_ipc_dir();
+    }
     Some("churn") => {
       let rt4 = util::runtime(4);
       let mut i = 0;
